@@ -27,14 +27,14 @@ func (C19) Describe() CheckInfo {
 	}
 }
 
-var c19Variants = []string{"read-fault", "write-fault", "devfull", "open-fault", "decode-fail", "eval-fail", "complete", "exit-status", "null-input", "auto-format", "encoder-domain", "nul-output", "malformed"}
+var c19Variants = []string{"read-fault", "write-fault", "devfull", "open-fault", "decode-fail", "eval-fail", "complete", "exit-status", "null-input", "auto-format", "encoder-domain", "nul-output", "malformed", "usage", "from-file"}
 
 var badYAML = []string{"a: [1, 2\n", "\tx: 1\n", "a: b: c\n", "a: \"unterminated\n", "- x\ny: 1\n", "a: *nope\n", "{a: 1\n", "a: 1\n  b: 2\n c: 3\n", "a: !!int notanint\nb: [\n"}
 
 func (C19) Generate(c *Ctx, r *Rand, index int) *Scenario {
 	sc := &Scenario{Kind: "proc", Meta: map[string]any{}}
 	rs := r.Fork("shape")
-	variant := c19Variants[rs.Weighted([]int{16, 14, 3, 12, 9, 8, 8, 10, 4, 6, 5, 5, 10})]
+	variant := c19Variants[rs.Weighted([]int{16, 14, 3, 12, 9, 8, 8, 10, 4, 6, 5, 5, 10, 4, 4})]
 	sc.Meta["variant"] = variant
 	evalAll := rs.Chance(1, 4)
 	format := "yaml"
@@ -305,6 +305,52 @@ func (C19) Generate(c *Ctx, r *Rand, index int) *Scenario {
 		sc.Meta["expr"] = "."
 		sc.Meta["format"] = format
 		sc.Meta["keep_flags"] = []any{"-p=" + format, "ea", "-o=json", "-I0"}
+	case "usage":
+		// invocations that cannot work must say so and exit non-zero
+		g := &DocGen{R: r.Fork("doc"), Plain: true}
+		sc.Files = []File{{Name: "f1.yaml", Docs: []string{g.Doc(DocID(r, 0, 0)).YAML()}, Mode: 0644}}
+		sc.Argv = Pick(rs, [][]string{
+			{"-i", ".a = 1"}, {"-i", ".a = 1", "-"}, {"-i", "-s", ".id", ".", "f1.yaml"}, {"--nope", ".", "f1.yaml"}, {"-o=foo", ".", "f1.yaml"}, {"-p=foo", ".", "f1.yaml"},
+			{"--front-matter=process", "."}, {"--from-file=missing.yq", "f1.yaml"}, {"-n", ".", "f1.yaml"}, {"-I", "x", ".", "f1.yaml"}, {"--split-exp-file=missing.yq", ".", "f1.yaml"},
+			{"--xml-attribute-prefix", ".", "f1.yaml", "--csv-separator=ab"}, {"ea", "-i", "."}, {"-o=sh", ".", "nosuchfile.yaml"}, {"-p=shell", ".", "f1.yaml"}, {"-I-2", ".", "f1.yaml"},
+		})
+		sc.Meta["expr"] = "."
+		sc.Meta["freeze_data"] = true
+		sc.Meta["keep_flags"] = []any{"-i", "-s", "-n", "ea", "--nope", "-o=foo", "-p=foo", "--front-matter=process", "--from-file=missing.yq", "-I", "--split-exp-file=missing.yq", "--xml-attribute-prefix", "--csv-separator=ab", "-o=sh", "-p=shell", "-I-2"}
+	case "from-file":
+		// the expression given in a file must behave like the same expression on the command line
+		sc.Files = GenMultiFiles(r.Fork("files"), opts)
+		expr := e.Combined()
+		body := expr
+		switch rs.Intn(4) {
+		case 1:
+			body = expr + "\n"
+		case 2:
+			body = strings.ReplaceAll(expr, " | ", " |\r\n  ")
+		case 3:
+			body = "# a comment\n" + expr + "\n"
+		}
+		name := Pick(rs, []string{"e.yq", "expr.txt"})
+		sc.Files = append(sc.Files, File{Name: name, Data: Bytes(body), Mode: 0644})
+		addOut()
+		if evalAll {
+			argv = append([]string{"ea"}, argv...)
+		}
+		if format == "json" {
+			argv = append(argv, "-p=json")
+		}
+		argv = append(argv, "--from-file="+name)
+		for _, f := range sc.Files {
+			if f.Name != name {
+				argv = append(argv, f.Name)
+			}
+		}
+		sc.Argv = argv
+		sc.Meta["expr"] = expr
+		sc.Meta["expr_file"] = name
+		sc.Meta["format"] = format
+		sc.Meta["freeze_data"] = true
+		sc.Meta["keep_flags"] = []any{"-p=json", "ea", "-o=json", "-I0", "--from-file=" + name}
 	case "encoder-domain":
 		g := &DocGen{R: r.Fork("doc"), Plain: true, Full: true}
 		sc.Files = []File{{Name: "f1.yaml", Docs: []string{g.Doc(DocID(r, 0, 0)).YAML()}, Mode: 0644}}
@@ -441,7 +487,7 @@ func (C19) Judge(c *Ctx, sc *Scenario) []Violation {
 		return ok
 	}
 	flags, names := c19Split(sc)
-	if len(names) == 0 && variant != "null-input" {
+	if len(names) == 0 && variant != "null-input" && variant != "usage" && variant != "from-file" {
 		return vs // degenerate (the shrinker removed every input): nothing is claimed
 	}
 	switch variant {
@@ -748,6 +794,34 @@ func (C19) Judge(c *Ctx, sc *Scenario) []Violation {
 			ref := c.Ref(argv, files, nil)
 			if ref.Exit == 0 && !bytes.HasPrefix(out.Stdout, ref.Stdout) {
 				add("O19.4", "stdout malformed in="+format, fmt.Sprintf("the results of the inputs before the malformed one are missing: got %q want prefix %q", clip(out.Stdout, 300), clip(ref.Stdout, 300)))
+			}
+		}
+	case "usage":
+		nontrivial = true
+		if mustFail("O19.4", "usage "+strings.Join(sc.Argv[:1], " ")) && len(out.Stdout) != 0 && !strings.Contains(string(out.Stdout), "Usage:") {
+			add("O19.4", "stdout usage", fmt.Sprintf("an invocation that cannot work printed results: %q", clip(out.Stdout, 200)))
+		}
+	case "from-file":
+		name := sc.MetaString("expr_file")
+		var argv []string
+		var files []File
+		for _, a := range sc.Argv {
+			if a == "--from-file="+name {
+				argv = append(argv, "--expression="+sc.MetaString("expr"))
+				continue
+			}
+			argv = append(argv, a)
+		}
+		for _, f := range sc.Files {
+			if f.Name != name {
+				files = append(files, f)
+			}
+		}
+		if len(argv) == len(sc.Argv) && sc.File(name) != nil {
+			ref := c.Ref(argv, files, sc.Stdin)
+			nontrivial = true
+			if !bytes.Equal(ref.Stdout, out.Stdout) || ref.Exit != out.Exit {
+				add("O19.8", "from-file", fmt.Sprintf("--from-file differs from the same expression on the command line: file exit=%d %q %s ; inline exit=%d %q", out.Exit, clip(out.Stdout, 200), firstLines(out.Stderr, 2), ref.Exit, clip(ref.Stdout, 200)))
 			}
 		}
 	case "encoder-domain":
